@@ -199,6 +199,21 @@ def basis_ground_bad(bits, terms, shots):
     return None
 
 
+def shots_ground_bad(bits, terms, nmax):
+    """every shot count 1..nmax (float rounding of the average is outside the exact-real model of the symbolic run):
+    all shots on one basis state => each Z-type term's estimate is coefficient x eigenvalue EXACTLY."""
+    from orquestra.quantum.measurements import Measurements
+    from orquestra.quantum.operators import PauliTerm, PauliSum
+
+    op = PauliSum([PauliTerm({q: "Z" for q in qs}, c) for qs, c in terms])
+    want = [float(c * (-1) ** sum(bits[q] for q in qs)) for qs, c in terms]
+    for n in range(1, nmax + 1):
+        got = [float(v) for v in Measurements([tuple(bits)] * n).get_expectation_values(op).values]
+        if got != want:
+            return f"{n} shots on {bits}: estimates {got}, want exactly {want}"
+    return None
+
+
 def exact_ground_bad(spec, terms):
     """calculate_exact_expectation_values equals the state's quadratic form with the operator (numpy dense oracle)."""
     from orquestra.quantum.api.estimation import EstimationTask
@@ -232,7 +247,10 @@ def work(item):
         res.d["ground_instances"] += 1
         res.d["instances"] -= 1
         res.ob(1)
-        bad = basis_ground_bad(p["bits"], [tuple(t) for t in p["terms"]], p["shots"]) if kind == "basis" else exact_ground_bad(p["spec"], [tuple(t) for t in p["terms"]])
+        if kind == "shots":
+            bad = shots_ground_bad(p["bits"], [tuple(t) for t in p["terms"]], p["nmax"])
+        else:
+            bad = basis_ground_bad(p["bits"], [tuple(t) for t in p["terms"]], p["shots"]) if kind == "basis" else exact_ground_bad(p["spec"], [tuple(t) for t in p["terms"]])
         if bad:
             res.candidate(kind, f"{p['label']}: {bad}", dict(p, clause=kind, values={}), sub=kind)
         else:
@@ -287,6 +305,9 @@ def run(ctx):
         terms = [[[0], 2.0], [[0, len(bits) - 1], -0.5], [[len(bits) - 1], 1.25]]
         for shots in (1, 5, 40):
             items.append(("basis", {"bits": bits, "terms": terms, "shots": shots, "label": f"basis state {bits} shots={shots}"}))
+    for bits in ([1, 0], [0, 1, 1]):
+        terms = [[[0], 2.0], [[0, len(bits) - 1], -0.5], [[len(bits) - 1], 1.25], [[], 3.0]]
+        items.append(("shots", {"bits": bits, "terms": terms, "nmax": 400 if ctx.tier == "quick" else 5000, "label": f"basis state {bits}, every shot count up to {400 if ctx.tier == 'quick' else 5000}"}))
     for spec, terms in [
         ([["RX(0.7)", [0]], ["CNOT", [0, 1]], ["RY(1.1)", [1]]], [[{"0": "Z"}, 1.0], [{"0": "X", "1": "Y"}, 0.5], [{}, 2.0]]),
         ([["H", [0]], ["RZ(0.4)", [0]], ["RX(-0.9)", [2]]], [[{"0": "Y", "2": "Z"}, -1.5], [{"1": "Z"}, 0.25]]),
